@@ -641,7 +641,10 @@ def run(res: C.Result, deep: bool):
     res.extra["fine_cases"] = n - n_fine0
     res.rule = ("handshake: every schedule of <= %d alternating runs (run length 1..%d for R, one writer cycle for W, "
                 "both starting threads) over %d small programs [%d cases]; directed boundary programs x 9 schedule "
-                "shapes; %d seeded random short and %d long (20-50 operations, 1-3 data sets, all four formatters, four "
+                "shapes; programs preceded by operations handed to the collection before start() (messages, time-outs, "
+                "pause, resume: 4 shapes x 4 programs x 3 schedules, and a quarter of the random cases); data sets "
+                "configured with the zero-padded type list of the data logger, messages of the core types 0 / 1; "
+                "%d seeded random short and %d long (20-50 operations, 1-3 data sets, all four formatters, four "
                 "scheduler flavours) runs; each schedule is completed by a round-robin tail.  formats: every partition "
                 "of every type sequence of length <= %d into <= 3 write() batches + finalize batch for raw/json/"
                 "quicklogger, plus seeded long partitions.  A handshake case is non-trivial when the writer wrote at "
@@ -658,7 +661,9 @@ def run(res: C.Result, deep: bool):
     res.extra["gate_labels_never_seen"] = [l for l in ALL_LABELS if l not in seen]
     res.assumptions = ["every access to an object both threads can reach is a scheduling point; code between two such "
                        "accesses touches thread-local data only (audited per run, see TRUSTED)",
-                       "one recording session per collection: start(); operations; stop()"]
+                       "one recording session per collection in the models: start(); operations; stop() — what precedes "
+                       "start() and what happens between several recordings of one collection (six multi-session runs "
+                       "with real threads) is judged on the implementation only"]
 
 
 def search(res: C.Result):
